@@ -6,7 +6,7 @@
    inside a transaction; union is not covered yet (hence _partial). *)
 From Coq Require Import ZArith List Bool.
 From Model Require Import PyBase Cache.
-From Proofs Require Import CacheProofs CacheWf CacheCopy CacheCoh CacheWorld CacheTheorems CacheExamples.
+From Proofs Require Import CacheProofs CacheWf CacheCopy CacheCoh CacheWorld CacheTheorems CacheUsable CacheExamples.
 Import ListNotations.
 Open Scope Z_scope.
 
@@ -85,6 +85,17 @@ Theorem C13_transaction_atomic_partial : forall s ops, W s -> snd (step s OEnter
   W s3.
 Proof. exact transaction_atomic. Qed.
 Print Assumptions C13_transaction_atomic_partial.
+
+(* a usable state: outside a transaction the next edit (a new atom, followed by fix_structure over the whole molecule or the
+   pending atoms) raises nothing; with the invariant re-established by transaction_atomic / copy_independent this covers the
+   molecule after a rollback and copies *)
+Theorem C13_usable : forall s c, W s -> o_backup (s_cur s) = None -> snd (step s (OAddAtom c None)) = None.
+Proof. exact usable. Qed.
+Print Assumptions C13_usable.
+
+Theorem C13_fix_structure_total : forall h o, inv1 h o -> exists h' o', fix_structure h o = (h', o', None) /\ inv1 h' o'.
+Proof. exact fix_structure_total. Qed.
+Print Assumptions C13_fix_structure_total.
 
 (* the selective flush of the Standardize patch step keeps ring-family entries only when neither the old nor the new order
    of the edited bond is 8: the non-special connectivity (and the connectivity) is then unchanged *)
